@@ -1,4 +1,5 @@
 //! simctl — engine A controller: `simctl <c15|c25|c30> [--tier …] [--seed …] [--replay …]`
+mod c15;
 mod c25;
 mod c30;
 mod launch;
@@ -13,6 +14,7 @@ fn main() {
     let code = match args[0].as_str() {
         "c30" => c30::main(&cli),
         "c25" => c25::main(&cli),
+        "c15" => c15::main(&cli),
         other => simcore::harness_error(&format!("unknown check {other}")),
     };
     std::process::exit(code);
